@@ -1,7 +1,11 @@
 package checks
 
 import (
+	"fmt"
+	"io"
 	"strings"
+
+	"github.com/dave/jennifer/jen"
 
 	"verif/internal/ev"
 	"verif/internal/imp"
@@ -55,9 +59,63 @@ func init() {
 	register(&Check{ID: "C19", Level: "model_checking", Run: func(r *ev.Recorder) {
 		r.Rule = "(1) explicit-state BFS over one real File: Qual(\"C\", s), Anon(\"C\"), ImportName(\"C\", x), ImportAlias(\"C\", C|c|.), the same for a package b/C whose real name is C and for fmt, one-line and multi-line CgoPreamble blocks, PackagePrefix - in every order up to the depth bound. " +
 			"(2) canonical histories: every reference sequence over {C, b/C, a/c, fmt, os, x/y, 9fans.net/go, B/b} (paths that sort before and after \"C\") x 10 preamble lists (0-2 blocks; one with an 80 KB line; one-line, one-line with trailing newline, multi-line, raw /* */ and // forms) x hints naming \"C\" (ImportName, ImportAlias C, c, ., _ ; double hints; hints after the references) x Anon x prefix {pkg, C}, within the deviation bound. " +
-			"Oracle on the parsed output: exactly one spec with path \"C\", without a name; every reference built with \"C\" is C.sym; with a preamble the spec is alone in its declaration, its doc comment consists of the preamble blocks' text in order, there is no blank line between doc and import, and all other specs come in an earlier declaration; without a preamble it has no doc; plus C04's exactness and C03's type check (FakeImportC). " +
+			"(3) every history of 4 operations over {Anon C, a fragment Qual(C) rendered with the File, reference to fmt / C / a path sorting before C, File.Render, preamble} followed by the final render. Oracle on the parsed output: exactly one spec with path \"C\", without a name; every reference built with \"C\" is C.sym; with a preamble the spec is alone in its declaration, its doc comment consists of the preamble blocks' text in order, there is no blank line between doc and import, and all other specs come in an earlier declaration; without a preamble it has no doc; plus C04's exactness and C03's type check (FakeImportC). " +
 			"distinct_nontrivial = distinct outputs importing \"C\" together with a preamble or another import"
 		r.Assume = []string{"comment text is compared line-wise, trimmed (gofmt may re-indent block comments)", "histories beyond the depth / deviation bounds are outside the bound"}
 		c19Check.run(r)
+		c19Histories(r)
 	}, Replay: c19Check.replay})
 }
+
+// c19Histories: short histories that include renders (File.Render and a fragment Qual("C", ..)
+// rendered with the File) before the final render.
+func c19Histories(r *ev.Recorder) {
+	type op struct {
+		name string
+		do   func(w *imp.World, st *c19State)
+	}
+	ops := []op{
+		{"Anon(C)", func(w *imp.World, st *c19State) { w.AnonImport("C") }},
+		{"Qual(C).RenderWithFile(file)", func(w *imp.World, st *c19State) {
+			jen.Qual("C", "frag").Call().RenderWithFile(io.Discard, w.F)
+			st.fragOnly = true
+			w.Log = append(w.Log, "Qual(C,frag).RenderWithFile(file)")
+		}},
+		{"Ref(fmt)", func(w *imp.World, st *c19State) { w.Ref("fmt", 0) }},
+		{"Ref(C)", func(w *imp.World, st *c19State) { w.Ref("C", 0) }},
+		{"File.Render", func(w *imp.World, st *c19State) { w.Render(); w.Log = append(w.Log, "File.Render") }},
+		{"CgoPreamble", func(w *imp.World, st *c19State) { w.CgoPreamble("#include <a.h>") }},
+		{"Ref(9fans.net/go)", func(w *imp.World, st *c19State) { w.Ref("9fans.net/go", 0) }},
+	}
+	n := len(ops)
+	total := 1
+	for l := 0; l < 4; l++ {
+		total *= n
+	}
+	for code := 0; code < total; code++ {
+		w := imp.New("NewFile", "", imp.DefaultTrueName(nil))
+		st := &c19State{}
+		c := code
+		for i := 0; i < 4; i++ {
+			ops[c%n].do(w, st)
+			c /= n
+		}
+		if st.fragOnly && !imp.ExpectedPaths(w)["C"] {
+			continue // C seen only by a fragment render: whether the File must import it is C08's subject
+		}
+		r.Eval(1)
+		a, msg := renderAnalyze(w)
+		var probs []string
+		if a == nil {
+			probs = []string{msg}
+		} else {
+			probs = imp.CheckCgo(a, w)
+			r.Distinct(a.Src)
+		}
+		if len(probs) > 0 {
+			r.Violate(ev.Violation{Signature: "c19:history:" + problemKind(probs[0]), What: fmt.Sprintf("%v: %s", w.Log, probs[0]), Case: ev.JSON(impCase{Ops: w.Log}), Detail: strings.Join(probs, "\n")})
+		}
+	}
+}
+
+type c19State struct{ fragOnly bool }
